@@ -80,6 +80,7 @@ type peerSpec struct {
 	udp      bool
 	stopOn   string // "", "OnOpen", "OnTraffic", "OnClose": this connection's callback returns Shutdown
 	flood    bool   // the loop is held inside the first OnTraffic until the asynchronous writers have issued everything
+	recSize  int    // record size of the "record" consumption policy (0: 2..4 by seed)
 	// runtime
 	delivered int64 // bytes the handler has been given (for lock-step peers)
 	laddr     string
@@ -186,7 +187,8 @@ func (h *vhandler) OnOpen(c Conn) (out []byte, action Action) {
 	}
 	key := raddr
 	if h.cfg.client {
-		key = laddr // a client connection is identified by its own (dialling) address
+		// a client connection is identified by the address it dialled (one listener per peer), or by the
+		// context it was dialled with
 		if sp, ok := c.Context().(*peerSpec); ok {
 			key = sp.laddr
 		}
@@ -565,6 +567,29 @@ func (h *vhandler) readOps0(vc *vconn, c Conn, emitR func(op string, req, n int,
 				return
 			}
 			continue
+		case "record":
+			// fixed-size records (a 2..4 byte header protocol): whole records only, the rest stays buffered, so
+			// that the next record spans the leftover and the fresh bytes (served from pooled scratch memory)
+			rs := 2 + int(sp.seed%3)
+			if sp.recSize > 0 {
+				rs = sp.recSize
+			}
+			for i := 0; i < 64 && c.InboundBuffered() >= rs; i++ {
+				if i%2 == 0 {
+					b, err := c.Next(rs)
+					ok := vsup.Match(b, id, vc.consumed) < 0 && len(b) == rs
+					vc.consumed += len(b)
+					emitR("Next", rs, len(b), ok, err)
+				} else {
+					b, err := c.Peek(rs)
+					ok := vsup.Match(b, id, vc.consumed) < 0 && len(b) == rs
+					emitR("Peek", rs, len(b), ok, err)
+					d, err := c.Discard(rs)
+					vc.consumed += d
+					emitR("Discard", rs, d, d == rs, err)
+				}
+			}
+			return
 		case "peekonly":
 			if avail == 0 {
 				return
